@@ -18,6 +18,10 @@ def run(rep, prog, tier):
     r2(rep, prog)
     r4(rep, prog)
     r5(rep, prog)
+    rep.rule("C12-R6", "score memo invalidation (shared with C13-R2): a scorer whose score() memoises its result in a field of self (RequiredOptionalScorer.score_cache) stores into that field in every DocSet method that moves a sub-docset — advance, seek and seek_danger — so the score reported for a document is the one computed for that document, however it was reached")
+    from ..report import Retag
+    from .c13 import memo_invalidation
+    memo_invalidation(Retag(rep, "C12-R6"), prog, "C12-R6")
     tab = ct.const_int_array(prog, "tantivy::fieldnorm::code::FIELD_NORMS_TABLE")
     rep.check(tab is not None and len(tab) == 256 and all(tab[i] > tab[i - 1] for i in range(1, 256)) and tab[0] == 0, "C12-R3", "FIELD_NORMS_TABLE is a strictly increasing 256-entry table", "quantisation is order preserving", "FIELD_NORMS_TABLE is not a strictly increasing 256-entry table starting at 0")
 
